@@ -61,6 +61,7 @@ fn main() {
         Some("bwrec") => models::backward::cmd_bwrec(&args),
         Some("fwdrec") => models::forward::cmd_fwdrec(&args),
         Some("grlprobe") => models::grl::cmd_grlprobe(&args),
+        Some("textchild") => models::text::cmd_textchild(&args),
         Some("kbstress") => models::kb::cmd_stress(&args),
         _ => {
             eprintln!("usage: vh replay|replay-one <model> <file> [opts]");
